@@ -350,12 +350,13 @@ func (m *monitor) hook(v *sim.View, ev *sim.Event) {
 		rs := m.rec[ev.Actor]
 		if k, ok := named(ev.After); !ok {
 			m.add("O2-ready-without-resolved-used-resource", fmt.Sprintf("%s: Usage %s stored Ready=True while spec.of names no resource", ev.Short(), uname))
-		} else if r := v.Get(k); !hasInUse(r) {
+		} else if r := v.Get(k); r == nil {
+			// the used resource finished an earlier, legitimately admitted deletion between the
+			// reconcile's labelling write and this write: the marker cannot be looked at; no claim
+			m.cnt["ready_transitions_used_resource_gone"]++
+		} else if !hasInUse(r) {
 			class := "never-ensured"
-			switch {
-			case r == nil:
-				class = "used-resource-missing"
-			case rs != nil && rs.ensured[k]:
+			if rs != nil && rs.ensured[k] {
 				class = "label-removed-after-ensure:" + m.cause[k]
 			}
 			m.add("O2-ready-without-in-use-label:"+class, fmt.Sprintf("%s: Usage %s stored Ready=True while %s does not carry %s=true (last removal: %q)", ev.Short(), uname, k, inUseLabel, m.cause[k]))
